@@ -1238,4 +1238,111 @@ def memoCallSender {α : Type} (H : List Char → List Char → α) (P : List Ch
   | [port, channel, sender] => intermediateSenderBody H P port channel sender
   | _ => H [] []
 
+/-! ## round 5: the transfer application's credit AS REGENERATED, genesis round trips, and the extended line protocol
+
+`Gen.C19.appRecvProg` is ibc-go's `Keeper.OnRecvPacket` (module cache, version of go.mod) translated path by path:
+(condition over the packet denomination, how the receiver is credited, denomination of the credited coin).  `appDenomBy`
+INTERPRETS it with the interpreter of `parseIBCCoinDenom`; `Props` proves it equal to the former hand model `appDenom` on
+every path, so `appDenom` is no longer trusted.
+
+Genesis: the erc20 module's `ExportGenesis` / `InitGenesis` carry the token pairs and the parameters; whether they carry
+the IBC tracking records is the regenerated fact `genesisCarries`.  A restart from an exported genesis keeps IBC core's
+packet commitments (ibc-go exports them), all balances and all contracts.  `genesisCtl` is that round trip on the control
+part; the EVM-originated transfers of the aliased token that are in flight at that moment lose their record — they leave
+the ghost log `evmSent` (the chain no longer tracks them) and are remembered in the ghost list `orphans`. -/
+
+def stdAppRecvProg : List (PCond × String × PRes) :=
+  [(.returnsVia "packet.GetSourceChannel()", "unescrow", .strip "packet.GetSourceChannel()"),
+   (.not (.returnsVia "packet.GetSourceChannel()"), "mint", .prefixed "packet.GetDestChannel()")]
+
+/-- the denomination the transfer application credits, as the regenerated program says -/
+def appDenomBy (prog : List (PCond × String × PRes)) (src dst : Ch) (pd : PDenom) : RDenom :=
+  hookDenom (prog.map fun p => (p.1, p.2.2)) src dst pd
+
+/-- how it credits: `unescrow` (a coin that returns home), `mint` (a voucher), `none` (no path applies) -/
+def appKindBy (prog : List (PCond × String × PRes)) (src dst : Ch) (pd : PDenom) : String :=
+  match prog.find? (fun p => evalPCond src dst p.1 pd) with
+  | some p => p.2.1
+  | none => "none"
+
+def genesisCarries : Bool := Gen.C19.genesisExportsRelations && Gen.C19.genesisImportsRelations
+
+/-- an EVM-originated transfer of the aliased token that is still committed -/
+def inflightA (c : Ctl) (e : SentRec) : Bool := decide (e.tok = Tok.A) && c.commits.any (fun x => decide (x.1 = e.key))
+
+def genesisCtl (carries : Bool) (c : Ctl) : Ctl :=
+  if carries then c else { c with rel := [], evmSent := c.evmSent.filter (fun e => !inflightA c e) }
+
+def orphansOf (carries : Bool) (c : Ctl) : List SentRec := if carries then [] else c.evmSent.filter (inflightA c)
+
+inductive XOp where
+  | op (o : Op)
+  | genesis                                         -- `genesis`: restart from an exported genesis (erc20 state round trip)
+  | denom (l : Ch) (hops : List Ch) (base : String) -- `denom l base h₁ … hₙ`: what do application and hook make of this path
+  deriving DecidableEq, Repr
+
+inductive XOut where
+  | out (o : Out)
+  | gen (rel : List (Ch × Seq))
+  | denom (app : RDenom) (kind : String) (hook : RDenom)
+  deriving DecidableEq, Repr
+
+structure XState where
+  st : State := {}
+  orphans : List SentRec := []      -- GHOST: transfers whose record a genesis round trip dropped
+  deriving DecidableEq, Repr
+
+def xinit : XState := {}
+
+def XOp.op? : XOp → Option Op
+  | .op o => some o
+  | _ => none
+
+def xstepWith (cfg : Cfg) (carries : Bool) (app : List (PCond × String × PRes)) (x : XState) : XOp → XState × XOut
+  | .op o =>
+    let r := stepWith cfg x.st o
+    ({ st := r.1, orphans := if o = .reset then [] else x.orphans }, .out r.2)
+  | .genesis =>
+    let c := genesisCtl carries x.st.ctl
+    ({ st := { x.st with ctl := c }, orphans := orphansOf carries x.st.ctl ++ x.orphans }, .gen c.rel)
+  | .denom l hops base =>
+    let src := cpOf x.st.ctl l
+    (x, .denom (appDenomBy app src l ⟨hops, base⟩) (appKindBy app src l ⟨hops, base⟩) (hookDenom cfg.parseProg src l ⟨hops, base⟩))
+
+def xstep : XState → XOp → XState × XOut := xstepWith genCfg genesisCarries Gen.C19.appRecvProg
+
+def xrunWith (cfg : Cfg) (carries : Bool) (app : List (PCond × String × PRes)) (x : XState) (xs : List XOp) : XState :=
+  xs.foldl (fun x o => (xstepWith cfg carries app x o).1) x
+
+def xrun (x : XState) (xs : List XOp) : XState := xrunWith genCfg genesisCarries Gen.C19.appRecvProg x xs
+
+def parseNats : List String → Option (List Nat)
+  | [] => some []
+  | w :: r => match w.toNat?, parseNats r with
+    | some n, some ns => some (n :: ns)
+    | _, _ => none
+
+def parseXOp (line : String) : XOp :=
+  match Util.words line with
+  | ["genesis"] => .genesis
+  | "denom" :: l :: base :: hops =>
+    match l.toNat?, parseNats hops with
+    | some l, some hs => .denom l hs base
+    | _, _ => .op .bad
+  | _ => .op (parseOp line)
+
+def showRDenom : RDenom → String
+  | .native n => "native:" ++ n
+  | .voucher hops b => "ibc:" ++ ".".intercalate (hops.map toString) ++ ":" ++ b
+  | .unknown => "unknown"
+
+def xrender : XOut → String
+  | .out o => render o
+  | .gen rel => "ok rel=" ++ showRel rel
+  | .denom a k h => "app=" ++ showRDenom a ++ " how=" ++ k ++ " hook=" ++ showRDenom h
+
+def xstepLine (x : XState) (line : String) : XState × String :=
+  let r := xstep x (parseXOp line)
+  (r.1, xrender r.2)
+
 end FxVerif.Model.C19
